@@ -463,7 +463,11 @@ def inv_idx(ctx):
     body = P.body(nk)
     for bi, s in k2.assigns_to_field(P, nk, MGN, "index"):
         gc = k2.guards_of(P, nk, bi)
-        if not any(d[0] == "bin" and d[1] == "Ge" and "index" in str(d[2]) and taken == 0 for d, taken, _ in gc):
+        by_cmp = any(d[0] == "bin" and d[1] == "Ge" and "index" in str(d[2]) and taken == 0 for d, taken, _ in gc)
+        # or: the entry was obtained with the checked `get`/`get_mut(self.index)` and the `?` continued (ControlFlow::Continue = discriminant 0)
+        by_get = any(d[0] == "discr" and "Try>::branch" in str(d[1])[:200] and ("]>::get_mut::<usize>" in str(d[1]) or "]>::get::<usize>" in str(d[1])) and "'index'" in str(d[1]) and taken == 0
+                     for d, taken, _ in gc)
+        if not (by_cmp or by_get):
             out.append("MoveGen::next increments index on a path not guarded by index < len")
     # the list never shrinks
     for k, b in P.fns.items():
